@@ -346,11 +346,11 @@ fn c09(s: &Solution, grid: &[(f64, Vec<f64>)], specs: &[EventSpec], dir: f64, kn
     let _ = known_root;
     for (fi, sp) in specs.iter().enumerate() {
         let c = match sp.kind {
-            EvKind::T(c) | EvKind::NegT(c) => c,
+            EvKind::T(c) | EvKind::NegT(c) | EvKind::CubeT(c) | EvKind::TanhT(c, _) => c,
             _ => continue,
         };
         let not_endpoint = gt.iter().all(|t| *t != c);
-        let rising_in_time = matches!(sp.kind, EvKind::T(_));
+        let rising_in_time = !matches!(sp.kind, EvKind::NegT(_));
         let rising_along = if dir > 0.0 { rising_in_time } else { !rising_in_time };
         let matches_dir = match sp.dir {
             Direction::All => true,
